@@ -1,4 +1,5 @@
-(* C13 — the rebroadcast section of an accepted block (model/CV.v, model/Supply.v). *)
+(* C13 — the rebroadcast section of an accepted block (model/CV.v, model/Supply.v),
+   code as of /repo 92b2ed5. *)
 From Saito Require Import Base CV Supply Known CVProofs LedgerProofs SupplyProofs.
 From Coq Require Import Permutation.
 
@@ -13,54 +14,141 @@ Section Atr.
   Definition mult_of (st : state) (b : block) : N := atr_mult (cf_gp cf) (the_input cf st b).
   Definition fpb_of (st : state) (b : block) : N := atr_fpb (the_input cf st b).
   Definition fee_of (st : state) (b : block) (it : tx * slip) : N := tx_size (fst it) * fpb_of st b.
+  Definition rebroadcast_p (st : state) (b : block) (it : tx * slip) : bool :=
+    is_rebroadcast (mult_of st b) (fee_of st b it) (snd it).
+  (* the outputs that are rebroadcast (value * multiplier exceeds the fee), in order *)
+  Definition rebroadcast_items (st : state) (b : block) : list (tx * slip) :=
+    filter (rebroadcast_p st b) (leaving st b).
+  (* the payouts the multiplier asks for (each value * multiplier and their sum saturate at
+     2^64-1, fix 812712b), against 5 % of the parent's treasury *)
+  Definition payout_asked (st : state) (b : block) : N :=
+    N.min (sumN (map (fun it => item_pay (mult_of st b) (fee_of st b it) (snd it)) (leaving st b))) U64MAX.
+  Definition payout_limit (st : state) (b : block) : N := cap_limit cap05 (the_input cf st b).
+  Definition capped (st : state) (b : block) : bool := payout_limit st b <? payout_asked st b.
+  (* under the cap every rebroadcast output gets value * (1 + limit / volume) and pays no fee *)
+  Definition capped_factor (st : state) (b : block) : N :=
+    1 + payout_limit st b / sumN (map (fun it => s_amt (snd it)) (leaving st b)).
   (* the rebroadcast transactions the code expects, in order *)
+  Definition expected_rebroadcast (st : state) (b : block) (it : tx * slip) : tx :=
+    if capped st b then capped_rb (fst it) (capped_factor st b) (snd it)
+    else rebroadcast_of (fst it) (mult_of st b) (fee_of st b it) (snd it).
   Definition expected_rebroadcasts (st : state) (b : block) : list tx :=
-    flat_map (fun it => item_rbs (fst it) (mult_of st b) (fee_of st b it) (snd it)) (leaving st b).
+    map (expected_rebroadcast st b) (rebroadcast_items st b).
+  Definition expected_fees_atr (st : state) (b : block) : N :=
+    sumN (map (fun it => if capped st b then item_dust (mult_of st b) (fee_of st b it) (snd it)
+                         else item_fee (mult_of st b) (fee_of st b it) (snd it)) (leaving st b)).
+  Definition expected_pay_atr (st : state) (b : block) : N :=
+    if capped st b
+    then sumN (map (fun it => s_amt (snd it) * capped_factor st b - s_amt (snd it)) (rebroadcast_items st b))
+    else payout_asked st b.
 
   Lemma leaving_is_items : forall st b, leaving st b = atr_items (cf_gp cf) (slip_valid (st_utxo st)) (the_input cf st b).
   Proof. intros. unfold leaving, atr_items. rewrite expiring_is_atr_etxs. reflexivity. Qed.
 
-  (* shape of one rebroadcast: same owner, type ATR, amount*multiplier - fee; its input is the
-     original with the paid-out amount *)
+  (* shape of one rebroadcast: input = the original slip as the ledger holds it; output: same
+     owner, type ATR, amount = value*multiplier - fee, or value*(1 + limit/volume) under the cap *)
   Lemma rebroadcast_shape : forall orig mult fee s,
-    is_rebroadcast mult fee s = true ->
-    item_rbs orig mult fee s = [rebroadcast_of orig mult fee s] /\
     t_ty (rebroadcast_of orig mult fee s) = TATR /\
-    t_from (rebroadcast_of orig mult fee s) = [set_amt s (s_amt s * mult)] /\
-    t_to (rebroadcast_of orig mult fee s) = [mkSlip (s_pk s) (s_amt s * mult - fee) SATR 0 0 0].
-  Proof.
-    intros orig mult fee s H. unfold item_rbs. rewrite H. repeat split.
-  Qed.
+    t_from (rebroadcast_of orig mult fee s) = [s] /\
+    t_to (rebroadcast_of orig mult fee s) = [mkSlip (s_pk s) (smul (s_amt s) mult - fee) SATR 0 0 0].
+  Proof. intros. repeat split. Qed.
+  Lemma capped_shape : forall orig adj s,
+    t_ty (capped_rb orig adj s) = TATR /\
+    t_from (capped_rb orig adj s) = [s] /\
+    t_to (capped_rb orig adj s) = [mkSlip (s_pk s) (s_amt s * adj) SATR 0 0 0].
+  Proof. intros. repeat split. Qed.
   Lemma dust_shape : forall orig mult fee s,
     is_rebroadcast mult fee s = false ->
-    item_rbs orig mult fee s = [] /\ item_fee mult fee s = s_amt s /\ s_amt s * mult <= fee.
+    item_rbs orig mult fee s = [] /\ item_fee mult fee s = s_amt s /\ item_dust mult fee s = s_amt s /\
+    smul (s_amt s) mult <= fee.
   Proof.
-    intros orig mult fee s H. unfold item_rbs, item_fee. rewrite H. repeat split.
+    intros orig mult fee s H. unfold item_rbs, item_fee, item_dust. rewrite H. repeat split.
     unfold is_rebroadcast in H. apply N.ltb_ge in H. exact H.
+  Qed.
+
+  (* carried and expected rebroadcasts agree position by position: in everything the hash binds,
+     and in their inputs *)
+  Lemma hash_and_inputs : forall E C, eqb_list sig_eqb E C = true -> same_inputs C E = true ->
+    Forall2 (fun e t => sig_eqb e t = true /\ t_from t = t_from e) E C.
+  Proof.
+    induction E as [|e r IH]; intros [|c r'] Hh Hs; cbn [eqb_list] in Hh; try discriminate; [constructor|].
+    apply andb_prop in Hh. destruct Hh as [Hh1 Hh]. cbn [same_inputs] in Hs. apply andb_prop in Hs. destruct Hs as [Hs1 Hs2].
+    constructor; [|apply IH; assumption]. split; [exact Hh1|].
+    clear - Hs1. revert Hs1. generalize (t_from e). induction (t_from c) as [|x l IHl]; intros [|y l'] H; cbn [eqb_list] in H; try discriminate; auto.
+    apply andb_prop in H. destruct H as [Hx Hl]. apply slip_eqb_eq in Hx. subst. f_equal. apply IHl. exact Hl.
   Qed.
 
   (* what an accepted block satisfies, C13 view *)
   Lemma accepted_atr : forall st b,
     validate_m cap15 cap05 cf MInf st b = Ok true ->
     Known_C02_nft_expiring cf st b = false ->
-    Known_C02_cap_branch cap15 cap05 cf st b = false ->
-    eqb_list sig_eqb (expected_rebroadcasts st b) (block_atrs (b_txs b)) = true
-    /\ h_fees_atr (b_hdr b) = sumN (map (fun it => item_fee (mult_of st b) (fee_of st b it) (snd it)) (leaving st b))
-    /\ h_pay_atr (b_hdr b) = sumN (map (fun it => item_pay (mult_of st b) (fee_of st b it) (snd it)) (leaving st b))
-    /\ exists c, cv_inf cap15 cap05 cf st b = Ok c /\ c_rb_hash c = expected_rebroadcasts st b.
+    Forall2 (fun e t => sig_eqb e t = true /\ t_from t = t_from e)
+            (expected_rebroadcasts st b) (block_atrs (b_txs b))
+    /\ h_fees_atr (b_hdr b) = expected_fees_atr st b
+    /\ h_pay_atr (b_hdr b) = expected_pay_atr st b.
   Proof.
-    intros st b Hval G2 G3.
-    destruct (validate_inv _ _ _ _ _ Hval) as [c [Hcv [[_ [Hfa [_ Hpa]]] [_ [_ [_ [Hhash _]]]]]]].
-    unfold Known_C02_cap_branch in G3. rewrite Hcv in G3.
+    intros st b Hval G2.
+    destruct (validate_inv _ _ _ _ _ Hval) as [c [Hcv [[_ [Hfa [_ Hpa]]] [_ [_ [_ [Hhash [Hsame _]]]]]]]].
     assert (Hnb : txs_no_bound (atr_etxs (cf_gp cf) (the_input cf st b)) = true).
     { rewrite expiring_is_atr_etxs. unfold Known_C02_nft_expiring in G2.
       apply negb_false_iff in G2. exact G2. }
-    pose proof Hcv as Hcv'. unfold cv_inf, run_cv in Hcv'. fold (the_input cf st b) in Hcv'. 
-    destruct (gcv_inf _ _ _ _ _ _ Hcv' Hnb G3) as [_ [_ [Cfa [Cpa [_ [Chash _]]]]]].
-    unfold expected_rebroadcasts, fee_of, mult_of, fpb_of. rewrite leaving_is_items.
-    unfold items_rbs, items_sum, it_fee in *. rewrite Chash in Hhash.
-    split; [exact Hhash|]. split; [congruence|]. split; [congruence|].
-    exists c. split; [exact Hcv | exact Chash].
+    unfold cv_inf, run_cv in Hcv. fold (the_input cf st b) in Hcv.
+    destruct (gcv_inf _ _ _ _ _ _ Hcv) as [_ [_ [_ [_ [_ [_ [_ [[r [Hr [Cfa [Cpa [Chash [Crbs [_ [_ [_ Ccap]]]]]]]]] _]]]]]]]].
+    unfold expected_rebroadcasts, expected_rebroadcast, expected_fees_atr, expected_pay_atr, rebroadcast_items,
+      rebroadcast_p, capped, payout_asked, payout_limit, capped_factor, fee_of, mult_of, fpb_of.
+    rewrite leaving_is_items.
+    destruct (r_cap r) eqn:Hcap.
+    - destruct (atr_section_cap _ _ _ _ _ _ Hnb Hr Hcap) as [Hlt [_ [_ [Hp [Hf [_ [Hrb Hh]]]]]]].
+      unfold pay_asked, items_sum, it_fee in Hlt. apply N.ltb_lt in Hlt. rewrite Hlt.
+      rewrite Crbs, Hrb, <- Hh, <- Chash in Hsame.
+      pose proof (hash_and_inputs _ _ Hhash Hsame) as HF. rewrite Chash, Hh in HF.
+      split; [exact HF|]. split.
+      + rewrite Hfa, Cfa, Hf. reflexivity.
+      + rewrite Hpa, Cpa, Hp. reflexivity.
+    - destruct (atr_section_inf _ _ _ _ _ _ Hnb Hr Hcap) as [Hle [_ [_ [Hp [Hf [_ [Hrb Hh]]]]]]].
+      unfold pay_asked, items_sum, it_fee in Hle, Hp. apply N.ltb_ge in Hle. unfold cap_limit. rewrite Hle.
+      rewrite Crbs, Hrb, <- Hh, <- Chash in Hsame.
+      pose proof (hash_and_inputs _ _ Hhash Hsame) as HF. rewrite Chash, Hh in HF.
+      unfold items_rbs in HF. rewrite items_rbs_map in HF.
+      split; [exact HF|]. split.
+      + rewrite Hfa, Cfa, Hf. reflexivity.
+      + rewrite Hpa, Cpa, Hp. reflexivity.
+  Qed.
+
+  (* ---------- every rebroadcast of the block belongs to an output that left the window ---------- *)
+  Lemma Forall2_in_r : forall (A B : Type) (R : A -> B -> Prop) l1 l2 y,
+    Forall2 R l1 l2 -> In y l2 -> exists x, In x l1 /\ R x y.
+  Proof.
+    intros A B R l1 l2 y H. induction H; intro Hy; [destruct Hy|].
+    destruct Hy as [Hy|Hy]; [subst; eexists; split; [left; reflexivity | assumption]|].
+    destruct (IHForall2 Hy) as [x' [Hx' HR]]. exists x'. split; [right; assumption | assumption].
+  Qed.
+  Lemma Forall2_in_l : forall (A B : Type) (R : A -> B -> Prop) l1 l2 x,
+    Forall2 R l1 l2 -> In x l1 -> exists y, In y l2 /\ R x y.
+  Proof.
+    intros A B R l1 l2 x H. induction H; intro Hx; [destruct Hx|].
+    destruct Hx as [Hx|Hx]; [subst; eexists; split; [left; reflexivity | assumption]|].
+    destruct (IHForall2 Hx) as [y' [Hy' HR]]. exists y'. split; [right; assumption | assumption].
+  Qed.
+
+  Lemma expected_from : forall st b it, t_from (expected_rebroadcast st b it) = [snd it].
+  Proof. intros. unfold expected_rebroadcast. destruct (capped st b); reflexivity. Qed.
+
+  Lemma nothing_else : forall st b t,
+    validate_m cap15 cap05 cf MInf st b = Ok true ->
+    Known_C02_nft_expiring cf st b = false ->
+    In t (b_txs b) -> t_ty t = TATR ->
+    exists it, In it (leaving st b) /\ rebroadcast_p st b it = true /\
+      t_from t = [snd it] /\ sig_eqb (expected_rebroadcast st b it) t = true.
+  Proof.
+    intros st b t Hval G2 Ht Hty.
+    destruct (accepted_atr st b Hval G2) as [HF _].
+    assert (Hin : In t (block_atrs (b_txs b))).
+    { unfold block_atrs. apply filter_In. split; auto. rewrite Hty. reflexivity. }
+    destruct (Forall2_in_r _ _ _ _ _ _ HF Hin) as [x [Hx [Hs Hf]]].
+    unfold expected_rebroadcasts in Hx. apply in_map_iff in Hx. destruct Hx as [it [Hit Hx]]. subst x.
+    unfold rebroadcast_items in Hx. apply filter_In in Hx. destruct Hx as [Hx1 Hx2].
+    exists it. repeat split; auto. rewrite Hf. apply expected_from.
   Qed.
 
   (* ---------- nothing is rebroadcast twice by one block ---------- *)
@@ -71,147 +159,46 @@ Section Atr.
     rewrite map_map. cbn [snd]. apply map_id.
   Qed.
 
-  Lemma expiring_on_chain : forall st b, expiring_txs cf st b = [] \/
-    exists e, In e (st_chain st) /\ expiring_txs cf st b = b_txs e /\ h_id (b_hdr e) = new_id b - (cf_gp cf + 1).
-  Proof.
-    intros st b. unfold expiring_txs. destruct (cf_gp cf + 1 <? new_id b); [|auto].
-    unfold block_at. destruct (find _ (st_chain st)) as [e|] eqn:E; [|auto].
-    apply find_some in E. destruct E as [E1 E2]. apply N.eqb_eq in E2. right. exists e. auto.
-  Qed.
-
   Lemma leaving_nodup : forall st b, Inv st -> NoDup (map snd (leaving st b)).
   Proof.
     intros st b HI. unfold leaving. rewrite exp_items_snd.
-    destruct (expiring_on_chain st b) as [H|[e [He [H _]]]]; rewrite H.
+    destruct (expiring_on_chain cf st b) as [H|[e [He [H _]]]]; rewrite H.
     - constructor.
     - apply NoDup_filter. destruct (located_outputs e (inv_located st HI e He)) as [Hnd _]. exact Hnd.
   Qed.
 
-  (* ---------- every rebroadcast of the block belongs to an output that left the window ---------- *)
-  Lemma eqb_list_in : forall (A : Type) (eqb : A -> A -> bool) l1 l2 y,
-    eqb_list eqb l1 l2 = true -> In y l2 -> exists x, In x l1 /\ eqb x y = true.
+  Lemma leaving_valid : forall st b it, In it (leaving st b) -> 0 < s_amt (snd it) -> In (snd it) (st_utxo st).
   Proof.
-    intros A eqb. induction l1 as [|a r IH]; intros [|b r'] y H Hy; cbn [eqb_list] in H; try discriminate; [destruct Hy|].
-    apply andb_prop in H. destruct H as [H1 H2]. destruct Hy as [Hy|Hy].
-    - subst. exists a. split; [left; reflexivity | exact H1].
-    - destruct (IH _ _ H2 Hy) as [x [Hx He]]. exists x. split; [right; exact Hx | exact He].
-  Qed.
-
-  Lemma nothing_else : forall st b t,
-    validate_m cap15 cap05 cf MInf st b = Ok true ->
-    Known_C02_nft_expiring cf st b = false ->
-    Known_C02_cap_branch cap15 cap05 cf st b = false ->
-    In t (b_txs b) -> t_ty t = TATR ->
-    exists it, In it (leaving st b) /\
-      is_rebroadcast (mult_of st b) (fee_of st b it) (snd it) = true /\
-      sig_eqb (rebroadcast_of (fst it) (mult_of st b) (fee_of st b it) (snd it)) t = true.
-  Proof.
-    intros st b t Hval G2 G3 Ht Hty.
-    destruct (accepted_atr st b Hval G2 G3) as [Hhash _].
-    assert (Hin : In t (block_atrs (b_txs b))).
-    { unfold block_atrs. apply filter_In. split; auto. rewrite Hty. reflexivity. }
-    destruct (eqb_list_in _ _ _ _ _ Hhash Hin) as [x [Hx He]].
-    unfold expected_rebroadcasts in Hx. apply in_flat_map in Hx. destruct Hx as [it [Hit Hx]].
-    exists it. split; auto. unfold item_rbs in Hx.
-    destruct (is_rebroadcast (mult_of st b) (fee_of st b it) (snd it)); [|destruct Hx].
-    destruct Hx as [Hx|[]]. subst x. auto.
+    intros st b it Hit Hpos. unfold leaving, exp_items in Hit. apply in_flat_map in Hit. destruct Hit as [t [_ Hit]].
+    apply in_map_iff in Hit. destruct Hit as [s' [Hs' Hf]]. subst it. cbn [snd] in *.
+    apply filter_In in Hf. destruct Hf as [_ Hv]. unfold slip_valid in Hv.
+    apply N.ltb_lt in Hpos. rewrite Hpos in Hv. apply in_utxo_In. exact Hv.
   Qed.
 
   (* ---------- the original of a rebroadcast output is no longer spendable ---------- *)
-  Lemma relocate_from_idx_unique : forall bid ord l j s1 s2,
-    j + Nlen l <= 256 -> In s1 (relocate_from bid ord j l) -> In s2 (relocate_from bid ord j l) ->
-    s_idx s1 = s_idx s2 -> s1 = s2.
-  Proof.
-    intros bid ord. induction l as [|x r IH]; intros j s1 s2 Hlen H1 H2 He; [destruct H1|].
-    unfold Nlen in *. cbn [length] in Hlen. rewrite Nat2N.inj_succ in Hlen.
-    cbn [relocate_from In] in H1, H2.
-    assert (Hr : forall s, In s (relocate_from bid ord (j + 1) r) -> j + 1 <= s_idx s).
-    { intros s Hs. apply relocate_from_spec in Hs; [lia | unfold Nlen; lia]. }
-    destruct H1 as [H1|H1]; destruct H2 as [H2|H2].
-    - congruence.
-    - subst s1. cbn [s_idx] in He. rewrite N.mod_small in He by lia. pose proof (Hr s2 H2). lia.
-    - subst s2. cbn [s_idx] in He. rewrite N.mod_small in He by lia. pose proof (Hr s1 H1). lia.
-    - apply (IH (j + 1)); auto. unfold Nlen. lia.
-  Qed.
-
-  Lemma outs_locate_loc_unique : forall bid l i s1 s2,
-    (forall t, In t l -> Nlen (t_to t) <= 255) ->
-    In s1 (outs (locate bid i l)) -> In s2 (outs (locate bid i l)) ->
-    s_ord s1 = s_ord s2 -> s_idx s1 = s_idx s2 -> s1 = s2.
-  Proof.
-    intros bid. induction l as [|t r IH]; intros i s1 s2 Hlen H1 H2 Ho Hi; [destruct H1|].
-    cbn [locate outs flat_map] in H1, H2. fold (outs (locate bid (i + 1) r)) in H1, H2.
-    assert (Hl : 0 + Nlen (t_to t) <= 256) by (pose proof (Hlen t (or_introl eq_refl)); lia).
-    assert (Hlen' : forall t0, In t0 r -> Nlen (t_to t0) <= 255) by (intros; apply Hlen; right; assumption).
-    apply in_app_or in H1. apply in_app_or in H2.
-    unfold relocate in H1, H2. cbn [t_to] in H1, H2.
-    destruct H1 as [H1|H1]; destruct H2 as [H2|H2].
-    - apply (relocate_from_idx_unique bid i (t_to t) 0); auto.
-    - apply relocate_from_spec in H1; auto. apply (outs_locate_spec bid r (i + 1) s2 Hlen') in H2. lia.
-    - apply relocate_from_spec in H2; auto. apply (outs_locate_spec bid r (i + 1) s1 Hlen') in H1. lia.
-    - apply (IH (i + 1)); auto.
-  Qed.
-
-  Lemma located_loc_unique : forall blk s1 s2, located blk ->
-    In s1 (outputs blk) -> In s2 (outputs blk) -> s_ord s1 = s_ord s2 -> s_idx s1 = s_idx s2 -> s1 = s2.
-  Proof.
-    intros blk s1 s2 [Hloc [Hlen _]] H1 H2. unfold outputs in *. fold (outs (b_txs blk)) in *.
-    rewrite Hloc in H1, H2. intros Ho Hi.
-    apply (outs_locate_loc_unique (h_id (b_hdr blk)) (b_txs blk) 0 s1 s2 Hlen H1 H2 Ho Hi).
-  Qed.
-
-  Lemma from_lists_in : forall l1 l2 f,
-    eqb_list (eqb_list slip_eqb) l1 l2 = true -> In f l1 -> In f l2.
-  Proof.
-    induction l1 as [|a r IH]; intros [|b r'] f H Hf; cbn [eqb_list] in H; try discriminate; [destruct Hf|].
-    apply andb_prop in H. destruct H as [H1 H2]. destruct Hf as [Hf|Hf].
-    - subst. left. clear - H1. revert b H1. induction f as [|x t IHf]; intros [|y t'] H; cbn [eqb_list] in H; try discriminate; auto.
-      apply andb_prop in H. destruct H as [Hx Ht]. apply slip_eqb_eq in Hx. subst. f_equal. apply IHf. exact Ht.
-    - right. apply (IH _ _ H2 Hf).
-  Qed.
-
   Theorem original_unspendable : forall st b it,
     Inv st -> located b ->
     validate_m cap15 cap05 cf MInf st b = Ok true ->
-    clean cap15 cap05 cf st b = true ->
-    Known_C13_rebroadcast_input_substituted cap15 cap05 cf st b = false ->
-    In it (leaving st b) ->
-    is_rebroadcast (mult_of st b) (fee_of st b it) (snd it) = true -> 0 < s_amt (snd it) ->
+    clean cap05 cf st b = true ->
+    In it (leaving st b) -> rebroadcast_p st b it = true -> 0 < s_amt (snd it) ->
     ~ In (snd it) (st_utxo (wind cf st b)).
   Proof.
-    intros st b it HI Hlocb Hval Hclean Hsub Hit Hrb Hpos Hin.
-    destruct (clean_split _ _ _ _ _ Hclean) as [_ [G2 [G3 _]]].
-    destruct (accepted_facts _ _ _ _ _ HI Hlocb Hval Hclean) as [Hid [Hins [Hubid _]]].
-    destruct (accepted_atr st b Hval G2 G3) as [_ [_ [_ [c [Hcv Chash]]]]].
-    unfold Known_C13_rebroadcast_input_substituted in Hsub. rewrite Hcv, Chash in Hsub.
-    apply negb_false_iff in Hsub.
-    set (s := snd it) in *. set (x := set_amt s (s_amt s * mult_of st b)).
-    (* the expected input is an input of the block *)
-    assert (Hx : In x (ins (b_txs b))).
-    { assert (In [x] (map t_from (expected_rebroadcasts st b))).
-      { apply in_map_iff. exists (rebroadcast_of (fst it) (mult_of st b) (fee_of st b it) s). split; [reflexivity|].
-        unfold expected_rebroadcasts. apply in_flat_map. exists it. split; auto.
-        unfold item_rbs. fold s. rewrite Hrb. left. reflexivity. }
-      apply (from_lists_in _ _ _ Hsub) in H. apply in_map_iff in H. destruct H as [t [Ht1 Ht2]].
-      unfold block_atrs in Ht2. apply filter_In in Ht2. destruct Ht2 as [Ht2 _].
-      unfold ins. apply in_flat_map. exists t. split; auto. rewrite Ht1. left. reflexivity. }
-    assert (Hm : 1 <= mult_of st b) by apply atr_mult_ge1.
-    assert (Hxpos : 0 < s_amt x) by (unfold x; cbn [set_amt s_amt]; nia).
-    pose proof (Hins x Hx Hxpos) as Hxu.
-    (* the original is in the utxo set as well *)
-    assert (Hsu : In s (st_utxo st)).
-    { unfold leaving, exp_items in Hit. apply in_flat_map in Hit. destruct Hit as [t [_ Hit]].
-      apply in_map_iff in Hit. destruct Hit as [s' [Hs' Hf]]. subst it. cbn [snd] in *. subst s.
-      apply filter_In in Hf. destruct Hf as [_ Hv]. unfold slip_valid in Hv.
-      apply N.ltb_lt in Hpos. rewrite Hpos in Hv. apply in_utxo_In. exact Hv. }
-    (* same location, same block: the same slip *)
-    assert (Hxs : x = s).
-    { destruct (inv_utxo st HI x Hxu) as [_ [b1 [Hb1 [Hi1 Ho1]]]].
-      destruct (inv_utxo st HI s Hsu) as [_ [b2 [Hb2 [Hi2 Ho2]]]].
-      assert (b1 = b2).
-      { apply (ids_ok_unique _ (inv_ids st HI)); auto. unfold bid_of. rewrite Hi1, Hi2. reflexivity. }
-      subst b2. apply (located_loc_unique b1); auto. apply (inv_located st HI). exact Hb1. }
-    (* it is consumed by the block *)
+    intros st b it HI Hlocb Hval Hclean Hit Hrb Hpos Hin.
+    destruct (clean_split _ _ _ _ Hclean) as [_ [G2 _]].
+    destruct (block_facts _ _ _ _ _ HI Hlocb Hval Hclean) as [c [pb [rest [r [p F]]]]].
+    pose proof (f_id _ _ _ _ _ _ _ _ _ _ F) as Hid.
+    pose proof (f_ins _ _ _ _ _ _ _ _ _ _ F) as Hins.
+    pose proof (f_ubid _ _ _ _ _ _ _ _ _ _ F) as Hubid.
+    destruct (accepted_atr st b Hval G2) as [HF _].
+    set (s := snd it) in *.
+    (* the expected rebroadcast of [it] has a carried counterpart with the same input *)
+    assert (Hx : In s (ins (b_txs b))).
+    { assert (He : In (expected_rebroadcast st b it) (expected_rebroadcasts st b)).
+      { unfold expected_rebroadcasts. apply in_map. unfold rebroadcast_items. apply filter_In. auto. }
+      destruct (Forall2_in_l _ _ _ _ _ _ HF He) as [t [Ht [_ Hf]]].
+      rewrite expected_from in Hf. unfold block_atrs in Ht. apply filter_In in Ht. destruct Ht as [Ht _].
+      unfold ins. apply in_flat_map. exists t. split; auto. rewrite Hf. left. reflexivity. }
+    pose proof (leaving_valid st b it Hit Hpos) as Hsu. fold s in Hsu.
     unfold wind in Hin. cbn [st_utxo] in Hin. apply purge_sub in Hin.
     destruct (located_outputs b Hlocb) as [_ Hbidout].
     assert (Hsep : separated (b_txs b)).
@@ -219,8 +206,93 @@ Section Atr.
       assert (In y (outputs b)) by exact Ho. pose proof (Hbidout y H0). unfold new_id in Hid. lia. }
     apply (In_apply_txs (b_txs b) (st_utxo st) s Hsep) in Hin.
     destruct Hin as [[_ Hn]|[Ho _]].
-    - apply Hn. rewrite <- Hxs. split; [exact Hx | exact Hxpos].
+    - apply Hn. split; [exact Hx | exact Hpos].
     - pose proof (Hubid s Hsu). assert (In s (outputs b)) by exact Ho. pose proof (Hbidout s H0).
       unfold new_id in Hid. lia.
+  Qed.
+
+  (* ---------- ... and never comes back: nothing is rebroadcast twice on a chain ---------- *)
+  Lemma gone_stays_gone : forall st b s,
+    Inv st -> located b ->
+    validate_m cap15 cap05 cf MInf st b = Ok true ->
+    clean cap05 cf st b = true ->
+    s_bid s <= tip_id st -> ~ In s (st_utxo st) -> ~ In s (st_utxo (wind cf st b)).
+  Proof.
+    intros st b s HI Hlocb Hval Hclean Hbid Hnot Hin.
+    destruct (block_facts _ _ _ _ _ HI Hlocb Hval Hclean) as [c [pb [rest [r [p F]]]]].
+    pose proof (f_id _ _ _ _ _ _ _ _ _ _ F) as Hid.
+    pose proof (f_ins _ _ _ _ _ _ _ _ _ _ F) as Hins.
+    pose proof (f_ubid _ _ _ _ _ _ _ _ _ _ F) as Hubid.
+    unfold wind in Hin. cbn [st_utxo] in Hin. apply purge_sub in Hin.
+    destruct (located_outputs b Hlocb) as [_ Hbidout].
+    assert (Hsep : separated (b_txs b)).
+    { intros y Hy Hp Ho. pose proof (Hubid y (Hins y Hy Hp)).
+      assert (In y (outputs b)) by exact Ho. pose proof (Hbidout y H0). unfold new_id in Hid. lia. }
+    apply (In_apply_txs (b_txs b) (st_utxo st) s Hsep) in Hin.
+    destruct Hin as [[Hu _]|[Ho _]]; [contradiction|].
+    assert (In s (outputs b)) by exact Ho. pose proof (Hbidout s H). unfold new_id in Hid. lia.
+  Qed.
+
+  (* states reached from [st] by accepted blocks *)
+  Inductive Later : state -> state -> Prop :=
+  | later_refl : forall st, Later st st
+  | later_step : forall st st' b, Later st st' -> located b ->
+      validate_m cap15 cap05 cf MInf st' b = Ok true -> clean cap05 cf st' b = true ->
+      Later st (wind cf st' b).
+
+  Lemma later_inv : forall st st', Inv st -> Later st st' -> Inv st' /\ tip_id st <= tip_id st'.
+  Proof.
+    intros st st' HI H. induction H.
+    - split; [assumption | lia].
+    - destruct (IHLater HI) as [HI' Hle]. split.
+      + eapply inv_step; eauto.
+      + destruct (block_facts _ _ _ _ _ HI' H0 H1 H2) as [c [pb [rest [r [p F]]]]].
+        pose proof (f_id _ _ _ _ _ _ _ _ _ _ F) as Hid. unfold new_id in Hid.
+        change (tip_id (wind cf st' b)) with (h_id (b_hdr b)). lia.
+  Qed.
+
+  Theorem nothing_twice_ever : forall st b it st' b' it',
+    Inv st -> located b ->
+    validate_m cap15 cap05 cf MInf st b = Ok true -> clean cap05 cf st b = true ->
+    In it (leaving st b) -> rebroadcast_p st b it = true -> 0 < s_amt (snd it) ->
+    Later (wind cf st b) st' ->
+    In it' (leaving st' b') -> snd it' <> snd it.
+  Proof.
+    intros st b it st' b' it' HI Hlocb Hval Hclean Hit Hrb Hpos Hlater Hit' Heq.
+    pose proof (original_unspendable st b it HI Hlocb Hval Hclean Hit Hrb Hpos) as Hgone.
+    pose proof (inv_step _ _ _ _ _ HI Hlocb Hval Hclean) as HI1.
+    assert (Hbid : s_bid (snd it) <= tip_id (wind cf st b)).
+    { destruct (inv_utxo st HI (snd it) (leaving_valid st b it Hit Hpos)) as [_ [blk [Hb [Hbi _]]]].
+      pose proof (chain_ids_le_tip st blk (inv_ids st HI) Hb) as Hle. unfold bid_of in Hle.
+      destruct (block_facts _ _ _ _ _ HI Hlocb Hval Hclean) as [c [pb [rest [r [p F]]]]].
+      pose proof (f_id _ _ _ _ _ _ _ _ _ _ F) as Hid. unfold new_id in Hid.
+      change (tip_id (wind cf st b)) with (h_id (b_hdr b)). lia. }
+    assert (Hstill : ~ In (snd it) (st_utxo st')).
+    { clear Hit'. induction Hlater.
+      - exact Hgone.
+      - destruct (later_inv _ _ HI1 Hlater) as [HI' Hle].
+        apply gone_stays_gone; auto. lia. }
+    apply Hstill. rewrite <- Heq. apply (leaving_valid st' b' it' Hit'). rewrite Heq. exact Hpos.
+  Qed.
+
+  (* ---------- an output older than the window can no longer be spent ---------- *)
+  Theorem expired_unspendable : forall st b t s,
+    Inv st -> located b ->
+    validate_m cap15 cap05 cf MInf st b = Ok true -> clean cap05 cf st b = true ->
+    In t (b_txs b) -> user_tx t = true -> In s (t_from t) -> 0 < s_amt s ->
+    h_id (b_hdr b) <= s_bid s + cf_gp cf.
+  Proof.
+    intros st b t s HI Hl Hv Hc Ht Hu Hs Hp.
+    destruct (block_facts _ _ _ _ _ HI Hl Hv Hc) as [c [pb [rest [r [p F]]]]].
+    pose proof (f_valid _ _ _ _ _ _ _ _ _ _ F t Ht) as Hval.
+    pose proof (f_id _ _ _ _ _ _ _ _ _ _ F) as Hid. unfold new_id in Hid.
+    destruct (plain_tx_no_bound t (f_plain _ _ _ _ _ _ _ _ _ _ F t Ht)) as [Hb _].
+    unfold tx_valid in Hval. apply andb_prop in Hval. destruct Hval as [Hval _].
+    apply andb_prop in Hval. destruct Hval as [_ Hage]. rewrite Hu in Hage. cbn [andb] in Hage.
+    apply negb_true_iff in Hage. unfold too_old in Hage.
+    destruct (N.le_gt_cases (h_id (b_hdr b)) (s_bid s + cf_gp cf)) as [Hle|Hgt]; [exact Hle|]. exfalso.
+    assert (existsb (fun s0 => aged s0 && (sadd (s_bid s0) (cf_gp cf) <? tip_id st + 1)) (t_from t) = true); [|congruence].
+    apply existsb_exists. exists s. split; auto. unfold aged. apply N.ltb_lt in Hp. rewrite Hp, (Hb s Hs). cbn [negb andb].
+    apply N.ltb_lt. pose proof (N.le_min_l (s_bid s + cf_gp cf) U64MAX) as Hsat. fold (sadd (s_bid s) (cf_gp cf)) in Hsat. lia.
   Qed.
 End Atr.
